@@ -284,6 +284,8 @@ def run(ctx):
     # the server's object table, its reference counts and a proxy's id set belong to one server / one address
     from .generic import per_instance_state
     per_instance_state(ctx, 'R20.9', ['managers'], floor=6)
+    from .generic import handlers_match_lookups
+    handlers_match_lookups(ctx, 'R20.11', ['managers'], floor=3)
     r20_6(ctx)
     r20_1(ctx)
     r20_2(ctx)
